@@ -73,6 +73,9 @@ def main():
             kind, arg, n, m = q['kind'], q['arg'], q['n'], q['m']
             r = {}
             try:
+                if q.get('distract') is not None:
+                    # the grader looks at other code in the same report, then comes back
+                    parse_program(student_code=q['distract'])
                 MAIN_REPORT.feedback.clear()
                 MAIN_REPORT.ignored_feedback.clear()
                 if kind == 'op':
